@@ -13,13 +13,15 @@ from sx.vals import SymSeq, ZStr
 PROPERTY = "C10"
 LEVEL = "model_checking"
 CODE = ["yowsup/layers/protocol_messages/protocolentities/attributes/converter.py:AttributesConverter.* (all *_to_proto / proto_to_* / message_to_protobytes / protobytes_to_message)",
+        "yowsup/layers/protocol_messages/protocolentities/protomessage.py + message_text.py + message_extendedtext.py (entity cases)",
         "yowsup/layers/protocol_messages/protocolentities/attributes/attributes_*.py"]
 BOUNDS = {"quick": "11 content kinds x optional-field families {all set, none set, each single optional set}; every set field an unconstrained value of its type "
-                   "(strings incl. empty, integers over the proto range incl. 0, opaque bytes of length 0..64, doubles); quoted message nesting depth <= 2",
+                   "(strings incl. empty, integers over the proto range incl. 0, opaque bytes of length 0..64, doubles); quoted message nesting depth <= 2; the same families as peer payloads "
+                   "(reference mapping -> parse -> re-serialise); every kind together with a sender-key distribution; text / extended-text entities changed after a first serialisation",
           "thorough": "nesting depth <= 3 and pairs of optional fields"}
 OUTSIDE = ["protobuf wire (de)serialisation itself (trusted to protobuf; exercised concretely on every witness)", "optional-field subsets other than the enumerated families (fields are mapped independently)",
            "fields of the WhatsApp schema that the library does not model"]
-ASSUMPTIONS = ["proto2 stub semantics (presence, defaults, MergeFrom, AttributeError on unknown names, TypeError on None) validated against the real protobuf runtime on each run"]
+ASSUMPTIONS = ["a field that was absent may come back explicitly set to its default value (same value for every reader); a present field must stay present", "proto2 stub semantics (presence, defaults, MergeFrom, AttributeError on unknown names, TypeError on None) validated against the real protobuf runtime on each run"]
 EXPLANATION = "symbolic execution of the hand-written field mapping on symbolic field values with a descriptor-generated protobuf stub"
 
 
